@@ -1,0 +1,18 @@
+//go:build verif
+
+package sequencer
+
+// Contracts for the deductive verifier in /verif (govc). Comment-only.
+// t32of(q) is the number of ticks of a thirty-second note at resolution q (oracle in /verif/spec/meta.gvs).
+
+// bar length in thirty-second notes: numerator x 32 / denominator, for every bar that fits into 255
+//@ func (Bar).Len
+//@ requires b.TimeSig[1] != 0
+//@ ensures [P:C20] (int(b.TimeSig[0]) * 32) / int(b.TimeSig[1]) <= 255 ==> int(result) == (int(b.TimeSig[0]) * 32) / int(b.TimeSig[1])
+
+// an event starts at its bar start plus its position and ends after its duration (0 = no end)
+//@ func (*Event).AbsTicks
+//@ requires b != nil
+//@ ensures [P:C20] start == b.AbsTicks + int64(t32of(uint16(ticks)) * uint32(e.Pos))
+//@ ensures [P:C20] e.Duration == 0 ==> end == 0
+//@ ensures [P:C20] e.Duration != 0 ==> end == start + int64(t32of(uint16(ticks)) * uint32(e.Duration))
